@@ -78,6 +78,15 @@ def run(ctx):
     if ctx.thorough:
         ctx.exhaustive.append("every declared constraint of every concrete class, both routes")
 
+    # history: class-level introspection of every class, bases first (spec/elements/... are computed
+    # properties; building must not depend on which of them were looked at before)
+    import inspect as _inspect
+    allcls = [c for n, c in vars(gen.M).items() if _inspect.isclass(c) and issubclass(c, Aggregate)]
+    for kcls in sorted(allcls, key=lambda k: (len(k.__mro__), k.__name__)):
+        for prop_name in ("spec", "spec_no_listaggregates", "elements", "subaggregates", "listaggregates",
+                          "listelements", "unsupported"):
+            getattr(kcls, prop_name)
+
     cases = []   # (clsname, kind, what, args, kwargs, expect)  expect in {"ok","err"}
 
     def pick(lst):
@@ -153,6 +162,11 @@ def run(ctx):
             cases.append((name, "int_over", a["name"], args, k3, "err"))
             k4 = dict(kwargs); k4[a["name"]] = -(10 ** L)
             cases.append((name, "int_neg_over", a["name"], args, k4, "err"))
+            import decimal as _d
+            k5 = dict(kwargs); k5[a["name"]] = _d.Decimal(10 ** L)
+            cases.append((name, "int_over_as_decimal", a["name"], args, k5, "err"))
+            k6 = dict(kwargs); k6[a["name"]] = float(10 ** L)
+            cases.append((name, "int_over_as_float", a["name"], args, k6, "err"))
         k2 = dict(kwargs); k2["nosuchattr"] = "1"
         cases.append((name, "unknown_kwarg", "", args, k2, "err"))
         lists = [a for a in c["spec"] if a["k"] in ("listagg", "listelem")]
@@ -177,7 +191,7 @@ def run(ctx):
         meta.append(("kw", name, kind, what, expect, r, None))
         lines.append(kw_line(idx, args, kwargs))
         # tree route (not for kinds that only exist on the keyword route)
-        if kind in ("unknown_kwarg", "list_as_kwarg", "list_wrong_member"):
+        if kind in ("unknown_kwarg", "list_as_kwarg", "list_wrong_member", "int_over_as_decimal", "int_over_as_float"):
             continue
         try:
             tree = tree_from(gen, name, args, kwargs)
@@ -211,7 +225,10 @@ def run(ctx):
         if tree is not None:
             case["tree"] = ET.tostring(tree, encoding="unicode")[:2000]
         ctx.stat(f"{route}:{kind}:{impl[0]}")
-        ctx.compare(f"{route}:{kind}", case, impl, model, nontrivial=True)
+        if kind == "int_over_as_float":
+            ctx.evaluations += 1          # floats are outside the model's value domain: oracle only
+        else:
+            ctx.compare(f"{route}:{kind}", case, impl, model, nontrivial=True)
         ctx.sample({"case": case, "impl": impl[0], "model": model[0]}, limit=8)
         if expect == "err" and impl[0] == "ok":
             ctx.violate(f"{kind}_accepted", case,
@@ -225,7 +242,7 @@ def run(ctx):
             ctx.violate(f"{kind}_rejected", case,
                         f"{name}: a value exactly at the limit ({kind} {what}) was rejected via the {route} route",
                         {"kind": kind, "route": route})
-        if r[0] == "ok" and expect == "ok":
+        if r[0] == "ok":
             probs = py_valid(r[1], schema, by_name)
             if probs:
                 ctx.violate("invalid_instance_exists", case, f"{name}: instance violates its constraints: {probs[:3]}")
